@@ -114,6 +114,8 @@ UnionsQ == { <<SName(kA), SName(kB)>>, <<SName(kB), SName(kA)>>, <<SName(kA), SN
              <<SWild, SIdx(0)>>, <<SName(kA), SWild>>, <<Sl(BV(1), BAbs, BAbs), SIdx(0)>>, <<SIdx(0), Sl(BAbs, BAbs, BV(0 - 1))>>,
              <<SPath("cur", <<N(kA), Ix(0)>>), SName(kA)>>, <<SPath("root", <<N(kA)>>), SIdx(0)>>,
              <<SName(kB), SPath("cur", <<N(kB), W>>)>>, <<SPath("cur", <<Ix(0)>>), SPath("cur", <<Ix(0)>>)>>,
+             <<SIdx(0), SPath("root", <<N(kA)>>)>>, <<SPath("root", <<N(kA), Ix(0)>>), SPath("cur", <<N(kA)>>)>>, <<SPath("root", <<N(kB)>>)>>,    \* root-anchored members, first and later
+             <<SPath("cur", <<N(kA)>>), SPath("root", <<W>>)>>,
              <<SFilter(FCmp("==", Cur(<<N(kA)>>), L(I(1)))), SIdx(0)>>, <<SName(kA), SFilter(Cur(<<N(kA)>>))>> }
 UnionsT == UnionsQ \cup { <<SName(kU), SName(kD)>>, <<SName(kM), SName(kZ), SName(kM)>>, <<SWild, SWild>>, <<SIdx(1), SIdx(1), SIdx(1)>>,
              <<SPath("cur", <<Desc(<<SName(kA)>>)>>), SWild>>, <<SPath("cur", <<W, N(kA)>>), SIdx(0 - 1)>>,
